@@ -228,8 +228,15 @@ def boostScore (score : Fr) (ms : List Cand) : Fr :=
   let mx := ms.foldl (fun mx m => if Fr.lt mx m.weight then m.weight else mx) Fr.one
   if !epsilonEqualsOne mx then Fr.mul score mx else score
 
-def sumTf (L : Fr) (tf : List (String × Nat)) : Fr :=
+/-- the terms in sorted order (the fixed code iterates `slices.Sorted(maps.Keys(tf))`) -/
+def sortedTerms (tf : List (String × Nat)) : List (String × Nat) :=
+  tf.mergeSort fun a b => decide (a.1 ≤ b.1)
+
+def sumTfList (L : Fr) (tf : List (String × Nat)) : Fr :=
   tf.foldl (fun s p => Fr.add s (tfScore bm25k bm25b L p.2)) .zero
+
+/-- the BM25 sum over the term-frequency map, in sorted term order -/
+def sumTf (L : Fr) (tf : List (String × Nat)) : Fr := sumTfList L (sortedTerms tf)
 
 /-- `scoreLineBM25` -/
 def scoreLineBM25 (dc : DocCtx) (ms : List Cand) (lineNumber : Int) : Fr :=
